@@ -217,10 +217,11 @@ def readV : TVal α → List Nat → Except TErr (TVal α)
   | .scalar _, _ :: _ => .error .outOfBounds
   | .tuple _, _ :: _ => .error .outOfBounds
   | .arr _ vs, [i] => match vs[i]? with | some x => .ok x | none => .error .outOfBounds
-  | .arr _ vs, i :: j :: rest =>
+  | .arr (.iter _) vs, i :: j :: rest =>      -- only `IterableKind::Iterables` (rows of ONE kind) is descended into
     match vs[i]? with
     | some (.arr e ws) => readV (.arr e ws) (j :: rest)
     | _ => .error .outOfBounds
+  | .arr _ _, _ :: _ :: _ => .error .outOfBounds
 
 /-- `as_usize_cast` with the two failure classes kept apart -/
 def usizeOf (v : TVal α) : Except TErr Nat :=
